@@ -290,7 +290,8 @@ def load_module_from_file_object(
             sip_hash = None
 
             ts = fp.read(4)
-            if magic_int in (3439,) or version >= (3, 7):
+            # The 3.7 alphas before 3392 (3.7a4) still have the 3.3-3.6 header.
+            if version >= (3, 7) and magic_int not in (3390, 3391):
                 # PEP 552. https://www.python.org/dev/peps/pep-0552/
                 # The flags are a 32-bit little-endian word; bit 0 set means
                 # the file is hash-based, bit 1 is "check_source".
